@@ -11,3 +11,6 @@ done
 # the repository's CLI, used by the process-level checks (C15, C33)
 env -u RUSTFLAGS cargo build --release --offline --manifest-path /repo/Cargo.toml --target-dir /verif/target/cli --bin wit-bindgen 2>&1 | tail -1
 echo "setup done"
+# warm the build caches of checks that compile scratch crates (C32: macro expansion)
+./check C32 quick >/dev/null 2>&1 || true
+echo "caches warmed"
